@@ -113,6 +113,13 @@ func validateLayoutTree(root string, o layoutOpts) (map[string]*layoutRepo, []st
 				if lr.index.SchemaVersion != 2 {
 					bad("%s: index.json schemaVersion %d", name, lr.index.SchemaVersion)
 				}
+				// the image-spec schema of an index requires "manifests" to be an array ("valid OCI image layout")
+				var rawIdx map[string]json.RawMessage
+				if json.Unmarshal(b, &rawIdx) == nil {
+					if m, ok := rawIdx["manifests"]; !ok || strings.TrimSpace(string(m)) == "null" {
+						bad("%s: index.json has no manifests array (%q)", name, trunc(b, 120))
+					}
+				}
 				for _, d := range lr.index.Manifests {
 					if tg := d.Annotations["org.opencontainers.image.ref.name"]; tg != "" {
 						if old, dup := lr.tags[tg]; dup {
